@@ -13,10 +13,15 @@ structure State where
   regs : List OrSwot := []
   /-- per register: the operations attempted on it since the last reset (newest first) -/
   hist : List (List Op) := []
+  /-- the declared history of the case (`hist` line), for the gap-free alternative -/
+  H : List Op := []
+  /-- per register: every state in its derivation so far had applied a gap-free prefix of `H`
+  (`C03.Reach` with the `DownClosed` alternative) -/
+  gf : List Bool := []
 
 def init (params : List String) : State :=
   let n := (params.head?.bind (·.toNat?)).getD 1
-  { n := n, regs := List.replicate 4 (OrSwot.empty n), hist := List.replicate 4 [] }
+  { n := n, regs := List.replicate 4 (OrSwot.empty n), hist := List.replicate 4 [], gf := List.replicate 4 true }
 
 def insertionSort (l : List (Nat × Nat)) : List (Nat × Nat) :=
   l.foldr (fun x acc =>
@@ -79,6 +84,63 @@ def lwwDump (ops : List Op) : String :=
   let dead := recs.filter (fun p => p.2 % 2 == 0) |>.map (fun p => (p.1, p.2 / 2))
   s!"E {fmtPairs live} D {fmtPairs dead}"
 
+/-- Arrival-order timeliness (hypothesis of the C08 cluster statement): every operation is less
+than `F` older (in time) than every operation applied before it.  `ops` is newest first. -/
+def timelyOk : List Op → Bool
+  | [] => true
+  | o :: earlier => earlier.all (fun e => decide (Ts.dts e.ts < Ts.dts o.ts + F)) && timelyOk earlier
+
+def validOps (ops : List Op) : Bool :=
+  ops.all (fun a => decide (a.ts < 18446744073709551616) && decide (Ts.fractional a.ts < 250) && decide (0 < Ts.dts a.ts))
+
+def lwwLive (ops : List Op) : String :=
+  let recs := (keysOf ops).filterMap (fun k => (Lww.lww ops k).map (fun r => (k, r)))
+  let live := recs.filter (fun p => p.2 % 2 == 1) |>.map (fun p => (p.1, p.2 / 2))
+  s!"E {fmtPairs live}"
+
+def sortByTs (l : List (Nat × Nat)) : List (Nat × Nat) :=
+  (sortPairs (l.map (fun p => (p.2, p.1)))).map (fun p => (p.2, p.1))
+
+/-- Deterministic interleaving of the removal and modification batches (each sorted by stamp):
+mode 0 = removals first, 1 = modifications first, otherwise bit `i` of `mode / 2` picks the batch
+of the `i`-th item while both are non-empty.  `true` marks a removal. -/
+def interleave (mode : Nat) (rs cs : List (Nat × Nat)) : List (Bool × Nat × Nat) :=
+  if mode == 0 then rs.map (fun p => (true, p.1, p.2)) ++ cs.map (fun p => (false, p.1, p.2))
+  else if mode == 1 then cs.map (fun p => (false, p.1, p.2)) ++ rs.map (fun p => (true, p.1, p.2))
+  else
+    let rec go (bits : Nat) : Nat → List (Nat × Nat) → List (Nat × Nat) → List (Bool × Nat × Nat)
+      | 0, _, _ => []
+      | _ + 1, [], cs => cs.map (fun p => (false, p.1, p.2))
+      | _ + 1, rs, [] => rs.map (fun p => (true, p.1, p.2))
+      | fuel + 1, r :: rs, c :: cs =>
+        if bits % 2 == 0 then (true, r.1, r.2) :: go (bits / 2) fuel rs (c :: cs)
+        else (false, c.1, c.2) :: go (bits / 2) fuel (r :: rs) cs
+    go (mode / 2) (rs.length + cs.length + 1) rs cs
+
+def opIn (o : Op) (l : List Op) : Bool := l.any (fun x => x.key == o.key && x.ts == o.ts && x.isDel == o.isDel)
+
+/-- Decidable `DownClosed A H`. -/
+def downClosedOk (A H : List Op) : Bool :=
+  A.all (fun o => H.all (fun o' =>
+    !(Ts.node o'.ts == Ts.node o.ts && decide (o'.ts ≤ o.ts)) || opIn o' A))
+
+def getGf (st : State) (i : Nat) : Bool := st.gf.getD i false
+def setGf (st : State) (i : Nat) (b : Bool) : State := { st with gf := st.gf.set i b }
+
+/-- After an operation on register `r`: keep the gap-free flag only if the new applied list is
+still a gap-free prefix of the declared history. -/
+def touchGf (st : State) (r : Nat) (o : Op) : State :=
+  setGf st r (getGf st r && opIn o st.H && downClosedOk (getHist st r) st.H)
+
+def parseOps (s : String) : Option (List Op) :=
+  if s == "-" then some []
+  else (s.splitOn ",").mapM (fun p =>
+    match p.splitOn ":" with
+    | [a, b, c] => match a.toNat?, b.toNat?, c.toNat? with
+      | some a, some b, some c => some ⟨a, b, c == 1⟩
+      | _, _, _ => none
+    | _ => none)
+
 def bstr (b : Bool) : String := if b then "true" else "false"
 
 /-- Least stamp with node id `n` that `isBefore` does not refuse. -/
@@ -92,16 +154,31 @@ def dumpStr (s : OrSwot) : String :=
 
 def step (st : State) (toks : List String) : State × String :=
   match toks with
+  | ["applydiff", a, b, src, mode] =>
+    -- a.diff(b), then the listed removals / modifications applied to `a` on source `src`
+    match a.toNat?, b.toNat?, src.toNat?, mode.toNat? with
+    | some a, some b, some src, some mode =>
+      if src < st.n ∧ a < 4 ∧ b < 4 then
+        let (cs, rs) := diff (getReg st a) (getReg st b)
+        let items := interleave mode (sortByTs rs) (sortByTs cs)
+        let (st', cnt) := items.foldl (fun (acc : State × Nat) it =>
+          let (isDel, k, ts) := it
+          let (s', res) := if isDel then deleteWithSource F (getReg acc.1 a) src k ts
+                           else insertWithSource F (getReg acc.1 a) src k ts
+          (setGf (pushHist (setReg acc.1 a s') a ⟨k, ts, isDel⟩) a false, acc.2 + (if res then 1 else 0))) (st, 0)
+        (st', s!"applied {cnt}/{items.length}")
+      else (st, "bad-op")
+    | _, _, _, _ => (st, "bad-op")
   | [op, a, b, c, d] =>
     match a.toNat?, b.toNat?, c.toNat?, d.toNat? with
     | some r, some src, some k, some ts =>
       if src < st.n ∧ r < 4 then
         if op == "ins" then
           let (s', res) := insertWithSource F (getReg st r) src k ts
-          (pushHist (setReg st r s') r ⟨k, ts, false⟩, bstr res)
+          (touchGf (pushHist (setReg st r s') r ⟨k, ts, false⟩) r ⟨k, ts, false⟩, bstr res)
         else if op == "del" then
           let (s', res) := deleteWithSource F (getReg st r) src k ts
-          (pushHist (setReg st r s') r ⟨k, ts, true⟩, bstr res)
+          (touchGf (pushHist (setReg st r s') r ⟨k, ts, true⟩) r ⟨k, ts, true⟩, bstr res)
         else (st, "bad-op")
       else (st, "bad-op")
     | _, _, _, _ => (st, "bad-op")
@@ -125,8 +202,20 @@ def step (st : State) (toks : List String) : State × String :=
     match r.toNat? with
     | some r =>
       let h := getHist st r
-      let spec := if windowOk h && distinctStamps h then lwwDump h else "-"
+      let spec := if validOps h && (windowOk h || getGf st r) then lwwDump h else "-"
       (st, dumpStr (getReg st r) ++ "\t#spec " ++ spec)
+    | none => (st, "bad-op")
+  | ["hist", ops] =>
+    match parseOps ops with
+    | some ops => ({ st with H := ops }, "ok")
+    | none => (st, "bad-op")
+  | ["lwwlive", r] =>
+    -- C08: live part only; oracle printed when the arrival order is timely
+    match r.toNat? with
+    | some r =>
+      let h := getHist st r
+      let spec := if validOps h && timelyOk h then lwwLive h else "-"
+      (st, s!"E {fmtPairs (getReg st r).entries.bindings}" ++ "\t#spec " ++ spec)
     | none => (st, "bad-op")
   | ["diff", a, b] =>
     match a.toNat?, b.toNat? with
@@ -137,7 +226,8 @@ def step (st : State) (toks : List String) : State × String :=
   | ["merge", a, b] =>
     match a.toNat?, b.toNat? with
     | some a, some b =>
-      (setHist (setReg st a (merge F (getReg st a) (getReg st b))) a (getHist st a ++ getHist st b), "ok")
+      (setGf (setHist (setReg st a (merge F (getReg st a) (getReg st b))) a (getHist st a ++ getHist st b)) a
+        (getGf st a && getGf st b), "ok")
     | _, _ => (st, "bad-op")
   | ["purge", r] =>
     match r.toNat? with
@@ -151,11 +241,11 @@ def step (st : State) (toks : List String) : State × String :=
     | _, _ => (st, "bad-op")
   | ["copy", a, b] =>
     match a.toNat?, b.toNat? with
-    | some a, some b => (setHist (setReg st a (getReg st b)) a (getHist st b), "ok")
+    | some a, some b => (setGf (setHist (setReg st a (getReg st b)) a (getHist st b)) a (getGf st b), "ok")
     | _, _ => (st, "bad-op")
   | ["reset", r] =>
     match r.toNat? with
-    | some r => (setHist (setReg st r (OrSwot.empty st.n)) r [], "ok")
+    | some r => (setGf (setHist (setReg st r (OrSwot.empty st.n)) r []) r true, "ok")
     | none => (st, "bad-op")
   | ["cut", r, n] =>
     match r.toNat?, n.toNat? with
